@@ -98,6 +98,62 @@ def modelledSites : List (String × String × String × SiteKind × String) := [
 def sitesRegistered (scanned : List (String × String × String)) : Bool :=
   scanned.all fun s => modelledSites.any fun m => m.1 == s.1 && m.2.1 == s.2.1 && m.2.2.1 == s.2.2
 
+/-! ### The registry of per-Checker containers ("mutable cached value" sites)
+
+One row per container attribute (dict / list / set) of the classes whose instances live as long as
+a `Checker` (scan of checker.py, arg_spec.py, type_object.py, typeshed.py, reexport.py,
+suggested_type.py; `Generated/CacheSites.lean`). The kind says what the property allows:
+
+* `memo`: a memo table — entries are never changed after insertion (model: `memoStep`); the harness
+  snapshots every entry after each program of a history and compares;
+* `protoCache`: `_protocol_positive_cache` (model: `check`; theorem `cache_entries_immutable`);
+  snapshotted likewise;
+* `cachedField`: a container inside a cached value (part of the snapshot of that value);
+* `transient`: must be empty between top-level checks;
+* `config`: filled once from the options when the object is built;
+* `accumulator`: grows across modules by design and is reported by `perform_final_checks`
+  (not read while checking a module). -/
+
+inductive CacheKind | memo | protoCache | cachedField | transient | config | accumulator
+  deriving DecidableEq, Repr
+
+def CacheKind.name : CacheKind → String
+  | .memo => "memo" | .protoCache => "protoCache" | .cachedField => "cachedField"
+  | .transient => "transient" | .config => "config" | .accumulator => "accumulator"
+
+def modelledCaches : List (String × String × String × CacheKind) := [
+  ("pyanalyze/checker.py", "Checker", "type_object_cache", .memo),
+  ("pyanalyze/checker.py", "Checker", "assumed_compatibilities", .transient),
+  ("pyanalyze/checker.py", "Checker", "vnv_map", .config),
+  ("pyanalyze/checker.py", "Checker", "type_alias_cache", .memo),
+  -- class-level defaults of option classes
+  ("pyanalyze/arg_spec.py", "ClassesSafeToInstantiate", "default_value", .config),
+  ("pyanalyze/arg_spec.py", "FunctionsSafeToCall", "default_value", .config),
+  ("pyanalyze/arg_spec.py", "IgnoredCallees", "default_value", .config),
+  ("pyanalyze/arg_spec.py", "KnownSignatures", "default_value", .config),
+  ("pyanalyze/arg_spec.py", "ArgSpecCache", "known_argspecs", .memo),
+  ("pyanalyze/arg_spec.py", "ArgSpecCache", "generic_bases_cache", .memo),
+  ("pyanalyze/type_object.py", "TypeObject", "base_classes", .cachedField),
+  ("pyanalyze/type_object.py", "TypeObject", "protocol_members", .cachedField),
+  ("pyanalyze/type_object.py", "TypeObject", "artificial_bases", .cachedField),
+  ("pyanalyze/type_object.py", "TypeObject", "_protocol_positive_cache", .protoCache),
+  ("pyanalyze/typeshed.py", "TypeshedFinder", "_assignment_cache", .memo),
+  ("pyanalyze/typeshed.py", "TypeshedFinder", "_attribute_cache", .memo),
+  ("pyanalyze/typeshed.py", "TypeshedFinder", "_active_infos", .transient),
+  -- a class-level list shared by all instances; only ever appended to by a context that discards errors
+  ("pyanalyze/typeshed.py", "_DummyErrorContext", "all_failures", .accumulator),
+  ("pyanalyze/reexport.py", "ImplicitReexportTracker", "completed_modules", .accumulator),
+  ("pyanalyze/reexport.py", "ImplicitReexportTracker", "module_to_reexports", .accumulator),
+  ("pyanalyze/reexport.py", "ImplicitReexportTracker", "used_reexports", .accumulator),
+  ("pyanalyze/suggested_type.py", "CallableData", "calls", .accumulator),
+  ("pyanalyze/suggested_type.py", "CallableTracker", "callable_to_data", .accumulator),
+  ("pyanalyze/suggested_type.py", "CallableTracker", "callable_to_calls", .accumulator)
+]
+
+/-- Every scanned container attribute has a row. -/
+def cachesRegistered (scanned : List (String × String × String)) : Bool :=
+  scanned.all fun s => modelledCaches.any fun m => m.1 == s.1 && m.2.1 == s.2.1 && m.2.2.1 == s.2.2
+
 /-! ### Classifying a textual difference between two renderings of the same diagnostic
 
 A message is cut into tokens at the separators of lists and unions; two renderings *differ by
